@@ -308,3 +308,135 @@ func init() {
 		return c16LongVerdict(parts[1], n, parts[3], ex.Value)
 	}
 }
+
+// ---------------------------------------------------------------------------
+// Several literals in one expression whose texts between the quotes are the
+// same (or nearly the same) characters, in different literal syntaxes: each
+// must be decoded by the rules of its own syntax, whatever else the
+// expression holds.
+
+type c16Chunk struct{ text, json, raw string }
+
+var c16Chunks = []c16Chunk{
+	{"a", "a", "a"}, {"b", "b", "b"}, {"k", "k", "k"}, {" ", " ", " "}, {"é", "é", "é"}, {"😀", "😀", "😀"}, {"$", "$", "$"}, {"n", "n", "n"}, {"u0041", "u0041", "u0041"},
+	{`\\`, `\`, `\`}, {`\n`, "\n", `\n`}, {`\t`, "\t", `\t`}, {`\"`, `"`, `\"`}, {`\/`, "/", `\/`}, {`\b`, "\b", `\b`}, {`\f`, "\f", `\f`}, {`\r`, "\r", `\r`},
+	{`\u0041`, "A", `\u0041`}, {`\u00e9`, "é", `\u00e9`}, {`\u00E9`, "é", `\u00E9`}, {`\ud83d\ude00`, "😀", `\ud83d\ude00`}, {`\u0027`, "'", `\u0027`}, {`\u005c`, `\`, `\u005c`}, {`\u0022`, `"`, `\u0022`}, {`\u0000`, "\x00", `\u0000`},
+}
+
+type c16Body struct{ text, json, raw string }
+
+func c16DrawBody(t *rapid.T, label string) []c16Chunk {
+	n := rapid.IntRange(1, 4).Draw(t, label+"-chunks")
+	out := make([]c16Chunk, n)
+	for i := range out {
+		out[i] = gen.Pick(t, label+"-chunk", c16Chunks)
+	}
+	return out
+}
+
+func c16Join(cs []c16Chunk) c16Body {
+	var b c16Body
+	for _, c := range cs {
+		b.text += c.text
+		b.json += c.json
+		b.raw += c.raw
+	}
+	return b
+}
+
+func TestC16_Shared(t *testing.T) {
+	c := collector("C16", "shared")
+	check(t, func(t *rapid.T) {
+		cs1 := c16DrawBody(t, "b1")
+		cs2 := cs1
+		switch rapid.IntRange(0, 3).Draw(t, "second") {
+		case 0: // one chunk replaced
+			cs2 = append([]c16Chunk{}, cs1...)
+			cs2[rapid.IntRange(0, len(cs2)-1).Draw(t, "at")] = gen.Pick(t, "repl", c16Chunks)
+		case 1: // one chunk more
+			cs2 = append(append([]c16Chunk{}, cs1...), gen.Pick(t, "more", c16Chunks))
+		case 2:
+			cs2 = c16DrawBody(t, "b2")
+		}
+		bodies := []c16Body{c16Join(cs1), c16Join(cs2)}
+		c.Case()
+		// the document: members named by the decoded bodies
+		var ms []jv.Member
+		seen := map[string]bool{}
+		lookup := map[string]jv.Val{}
+		for i, k := range []string{bodies[0].json, bodies[1].json, bodies[0].raw, bodies[1].raw} {
+			if !seen[k] {
+				seen[k] = true
+				v := jv.VStr(fmt.Sprintf("m%d", i))
+				ms = append(ms, jv.Member{K: k, V: v})
+				lookup[k] = v
+			}
+		}
+		doc := jv.VObj(ms)
+		n := rapid.IntRange(2, 5).Draw(t, "items")
+		var texts []string
+		var wants []jv.Val
+		kinds := map[string]bool{}
+		for i := 0; i < n; i++ {
+			b := bodies[rapid.IntRange(0, 1).Draw(t, "body")]
+			switch k := rapid.IntRange(0, 6).Draw(t, "syntax"); k {
+			case 0, 1:
+				texts, wants = append(texts, "'"+b.text+"'"), append(wants, jv.VStr(b.raw))
+				kinds["raw"] = true
+			case 2:
+				texts, wants = append(texts, "`\""+b.text+"\"`"), append(wants, jv.VStr(b.json))
+				kinds["json"] = true
+			case 3:
+				texts, wants = append(texts, "\""+b.text+"\""), append(wants, lookup[b.json])
+				kinds["quoted"] = true
+			case 4:
+				texts, wants = append(texts, "{\""+b.text+"\": '"+b.text+"'}"), append(wants, jv.VObj([]jv.Member{{K: b.json, V: jv.VStr(b.raw)}}))
+				kinds["quoted"], kinds["raw"] = true, true
+			case 5:
+				texts, wants = append(texts, "@.\""+b.text+"\""), append(wants, lookup[b.json])
+				kinds["quoted"] = true
+			default:
+				texts, wants = append(texts, "'"+b.text+"' == `\""+b.text+"\"`"), append(wants, jv.VBool(b.raw == b.json))
+				kinds["raw"], kinds["json"] = true, true
+			}
+		}
+		var text string
+		var want jv.Val
+		switch rapid.IntRange(0, 2).Draw(t, "frame") {
+		case 0:
+			text, want = "["+strings.Join(texts, ", ")+"]", jv.VArr(wants)
+		case 1:
+			var parts []string
+			var wm []jv.Member
+			for i := range texts {
+				parts = append(parts, fmt.Sprintf("k%d: %s", i, texts[i]))
+				wm = append(wm, jv.Member{K: fmt.Sprintf("k%d", i), V: wants[i]})
+			}
+			text, want = "{"+strings.Join(parts, ",")+"}", jv.VObj(wm)
+		default:
+			// the first literals only have to be parsed, the last one is the value
+			text, want = "["+strings.Join(texts[:n-1], ", ")+"] && "+texts[n-1], wants[n-1]
+		}
+		node := run.FromVal(doc)
+		call := run.Call{API: "search", Expr: text, Doc: &node}
+		run.Watch(c, "shared", call)
+		res := model.Res{V: want}
+		out := run.Search(text, node.Build())
+		msg := run.CheckAgainst(res, out)
+		if msg == "" {
+			if e, co := run.Compile(text); e == nil {
+				msg = "Compile fails: " + co.String()
+			} else {
+				msg = run.CheckAgainst(res, run.ExprSearch(e, node.Build()))
+			}
+		}
+		if msg != "" {
+			c.Fail(t, run.Replay{Check: "shared", Kind: "expect", Calls: []run.Call{call}, Expect: &run.Expect{Value: &run.EncVal{V: want}}, Message: msg}, "shared")
+			return
+		}
+		c.Label(fmt.Sprintf("syntaxes-%d", len(kinds)))
+		if len(kinds) >= 2 && strings.Contains(bodies[0].text+bodies[1].text, `\`) {
+			c.NonTrivial(text, func() any { return map[string]any{"expr": text, "doc": doc.JSON()} })
+		}
+	})
+}
